@@ -59,14 +59,20 @@ struct Frags {
 		if (taken[n] == pool[n].size()) pool[n].push_back(malloc(n));
 		return pool[n][taken[n]++];
 	}
-	void build(const uint8_t *s, const std::vector<size_t> &l)
+	// A zero-length fragment never owns a readable byte of the message, so its base is made hostile:
+	//   zmode 0: base = end of an exactly sized 1-byte block (any read through it is an ASan report, no crash)
+	//   zmode 1: base = a readable 1-byte block holding LF, a byte the contiguous form does not have there
+	//            (a read goes unnoticed by ASan but changes the result: LF ends comments, is white space)
+	void build(const uint8_t *s, const std::vector<size_t> &l, int zmode = 0)
 	{
 		for (size_t &t : taken) t = 0;
 		lens = l; nv = l.size();
 		vec = (struct iovec *) get(nv * sizeof *vec);
 		size_t p = 0;
 		for (size_t i = 0; i < nv; ++i) {
-			vec[i].iov_len = l[i]; vec[i].iov_base = get(l[i]);
+			vec[i].iov_len = l[i];
+			if (!l[i]) { uint8_t *z = (uint8_t *) get(1); *z = '\n'; vec[i].iov_base = zmode ? z : z + 1; continue; }
+			vec[i].iov_base = get(l[i]);
 			if (s) { if (l[i]) memcpy(vec[i].iov_base, s + p, l[i]); } else if (l[i]) memset(vec[i].iov_base, FILL, l[i]);
 			p += l[i];
 		}
@@ -184,7 +190,7 @@ struct Case {
 	else if (!eq_) c.fail(fn, icls, acls, "wrong-result", std::string(desc) + " on " + c.where() + ": " + k.diff()); } while (0)
 
 // ------------------------------------------------------------------ path counters (vacuity)
-struct Paths { uint64_t nontrivial, beyond_first, tok_comment_cross, tok_newline_cross, trim_cross, quote_cross, read_cross, argv_multi, array_args, memcpy_both, memcpy_partial, append_multi, qget_two, with_empty, inline_form, list_form; };
+struct Paths { uint64_t nontrivial, beyond_first, tok_comment_cross, tok_newline_cross, tok_empty_in_comment, zbase_unreadable, zbase_newline, trim_cross, quote_cross, read_cross, argv_multi, array_args, memcpy_both, memcpy_partial, append_multi, qget_two, with_empty, inline_form, list_form; };
 static Paths P;
 
 // ------------------------------------------------------------------ search functions on iovec lists
@@ -244,6 +250,13 @@ static void ops_search(Case &c, Sink &k, const struct iovec *v, size_t nv)
 				for (size_t p = fs; p < fs + v[a].iov_len && !hit; ++p) if (c.s[p] == '#')
 					for (size_t q = fs + v[a].iov_len; q < (size_t) ret; ++q) if (c.s[q] == '\n') { hit = true; break; }
 			if (hit) ++P.tok_newline_cross;
+			// ... or a zero-length fragment lies inside the comment (after its '#', before the hit)
+			bool ein = false, seen = false; fs = 0;
+			for (size_t a = 0; a < nv && !ein && fs <= (size_t) ret; fs += v[a++].iov_len) {
+				if (!v[a].iov_len) { if (seen && fs < (size_t) ret) { bool open = false; for (size_t p = 0; p < fs; ++p) { if (c.s[p] == '#') open = true; else if (c.s[p] == '\n') open = false; } ein = open; } continue; }
+				for (size_t p = fs; p < fs + v[a].iov_len; ++p) if (c.s[p] == '#') seen = true;
+			}
+			if (ein) ++P.tok_empty_in_comment;
 		}
 		k.begin(); k.num(ret);
 		CLOSE("mpt_memtok", "", std::string(tok ? "token" : "visible") + (com ? ",comments" : "") + (esc ? ",escapes" : ""), fmt("mpt_memtok(tok=%s,com=%s,esc=%s)", nn(tok), nn(com), nn(esc)));
@@ -426,12 +439,20 @@ static void body_string(Run &r, const std::string &job, Ctx &x, bool search)
 	int E = n > 5 ? 1 : b.E;
 	for (const std::vector<uint8_t> &z : zero_places(parts.size(), E)) {
 		with_zeros(parts, z, lens);
+		bool hasz = false; for (size_t l : lens) if (!l) hasz = true;
 		f.build(s, lens);
 		if (r.replaying) r.note("input %s cut as %s", show(s, n).c_str(), show_cut(s, lens).c_str());
+		if (hasz) ++P.zbase_unreadable;
 		if (search) {
 			c.form = "iovec list"; k.start_cmp();
 			ops_search(c, k, f.vec, f.nv);
 			count_case(r, lens, 1); ++P.list_form;
+			if (hasz) {   // second variant: the empty fragments point at a readable LF
+				f.build(s, lens, 1);
+				c.form = "iovec list, empty fragments based on a foreign LF byte"; k.start_cmp();
+				ops_search(c, k, f.vec, f.nv);
+				count_case(r, lens, 1); ++P.list_form; ++P.zbase_newline;
+			}
 			if (lens.size() == 3 && n == 3 && lens[1] == 0) r.sample("search: " + show_cut(s, lens) + " x {memchr/memrchr 9 tokens, memfcn/memrfcn 6 predicates, memstr/memrstr 6 sets, memtok 45 (tok,com,esc) combinations} vs " + show(s, n));
 			continue;
 		}
@@ -664,14 +685,15 @@ void mc_explore(Run &r, const std::string &job)
 {
 	memset(&P, 0, sizeof P);
 	const char *req[] = {"nontrivial", "cases_with_zero_length_fragment", "form_inline_first_part", "form_pure_iovec_list", "search_hit_beyond_first_fragment",
-	                     "memtok_comment_started_in_earlier_fragment", "memtok_comment_ended_by_newline_in_later_fragment", "argv_space_at_fragment_end", "argv_quoted_input_fragmented", "argv_iterated_more_than_one_argument",
+	                     "memtok_comment_started_in_earlier_fragment", "memtok_comment_ended_by_newline_in_later_fragment", "memtok_zero_length_fragment_inside_comment", "empty_fragment_base_unreadable", "empty_fragment_base_foreign_newline", "argv_space_at_fragment_end", "argv_quoted_input_fragmented", "argv_iterated_more_than_one_argument",
 	                     "array_message_more_than_one_argument", "read_crossing_fragment_boundary", "memcpy_source_and_target_fragmented", "memcpy_open_length_partial",
 	                     "append_multi_fragment", "qget_two_part_message"};
 	for (const char *q : req) r.require(q);
 	dfs(r, [&](Ctx &x) { body(r, job, x); });
 	r.count("nontrivial", P.nontrivial); r.count("cases_with_zero_length_fragment", P.with_empty);
 	r.count("form_inline_first_part", P.inline_form); r.count("form_pure_iovec_list", P.list_form);
-	r.count("search_hit_beyond_first_fragment", P.beyond_first); r.count("memtok_comment_started_in_earlier_fragment", P.tok_comment_cross); r.count("memtok_comment_ended_by_newline_in_later_fragment", P.tok_newline_cross);
+	r.count("search_hit_beyond_first_fragment", P.beyond_first); r.count("memtok_comment_started_in_earlier_fragment", P.tok_comment_cross); r.count("memtok_comment_ended_by_newline_in_later_fragment", P.tok_newline_cross); r.count("memtok_zero_length_fragment_inside_comment", P.tok_empty_in_comment);
+	r.count("empty_fragment_base_unreadable", P.zbase_unreadable); r.count("empty_fragment_base_foreign_newline", P.zbase_newline);
 	r.count("argv_space_at_fragment_end", P.trim_cross); r.count("argv_quoted_input_fragmented", P.quote_cross);
 	r.count("argv_iterated_more_than_one_argument", P.argv_multi); r.count("array_message_more_than_one_argument", P.array_args);
 	r.count("read_crossing_fragment_boundary", P.read_cross);
